@@ -186,6 +186,7 @@ def build(plan):
         ann = {}
         bann = {}
         presets = {}
+        base_presets = {}  # class-level values that live on a base class of the component
         inits = {}
         for a, target in [(a, ann) for a in cls.get("attrs", [])] + [(a, bann) for a in cls.get("base_attrs", [])]:
             if a["ann"].startswith("class:"):
@@ -194,7 +195,7 @@ def build(plan):
             else:
                 target[a["n"]] = ann_obj(a["ann"])
             if a["rel"] == "preset":
-                presets[a["n"]] = ("preset-sentinel", a["n"])
+                (base_presets if (target is bann or a.get("also_on_robot")) else presets)[a["n"]] = ("preset-sentinel", a["n"])
             if a["rel"] == "init":
                 inits[a["n"]] = ("init-sentinel", a["n"])
         ctor = cls.get("ctor", [])
@@ -227,8 +228,8 @@ def build(plan):
             body["setup"] = setup
         body["execute"] = execute
         bases = (object,)
-        if bann:
-            bases = (type(f"CompBase{k}", (object,), {"__annotations__": bann}),)
+        if bann or base_presets:
+            bases = (type(f"CompBase{k}", (object,), dict({"__annotations__": bann}, **base_presets)),)
         c = type(f"Comp{k}", bases, body)
         made[k] = c
         return c
@@ -353,7 +354,7 @@ def decode(code):
             cls["attrs"].append(a)
         for j, c in enumerate(base_c):
             a = dec_attr(k, j, c, allow_ref=False, tag="b")
-            if a["n"] in seen or a["rel"] in ("preset", "init"):
+            if a["n"] in seen or a["rel"] == "init":
                 continue
             seen.add(a["n"])
             cls["base_attrs"].append(a)
